@@ -459,6 +459,49 @@ def _check_frame(rec, r, fk, case, nontrivial, keep):
                       "one of the Uslp* errors or ValueError", repro=repro)
 
 
+    # managed parameters that say the same thing differently: a zone that is switched OFF may still have its length
+    # configured (a mission table keeps the lengths and toggles the flags) - flag False means absent, whatever the length
+    base_kw = dict(has_insert_zone=iz is not None, insert_zone_len=len(iz) if iz is not None else None,
+                   has_fecf=fecf is not None, fecf_len=len(fecf) if fecf is not None else None)
+    own_kw = dict(fixed_len=n) if fk == "fixed" else dict(truncated_frame_len=n if trunc else 12)
+    alts = []
+    if iz is None:
+        alts.append(dict(base_kw, insert_zone_len=4))
+    if fecf is None:
+        alts.append(dict(base_kw, fecf_len=2))
+    if iz is None and fecf is None:
+        alts.append(dict(base_kw, insert_zone_len=1, fecf_len=4))
+    for kw in alts:
+        try:
+            props = make_props("fixed" if fk == "fixed" else "var", dict(kw, **own_kw))
+        except (ValueError, TypeError):
+            rec.outcome("equivalent-parameters:not-constructible")  # a constructor that refuses the combination makes no wrong promise
+            continue
+        try:
+            got = f.TransferFrame.unpack(raw_frame=ref, frame_type=ftype, frame_properties=props)
+            gobs = UU.observe_frame(got)
+        except Exception as e:
+            bad("TransferFrame.unpack/zone-switched-off-with-length-configured/exception/" + type(e).__name__, {"parameters": kw, "error": repr(e)}, exp)
+            continue
+        if gobs != exp:
+            bad("TransferFrame.unpack/zone-switched-off-with-length-configured/fields", {"parameters": kw, "decoded": gobs}, exp)
+    # a wrong fixed length must also be refused when the receive buffer is long enough to hold it (frames back to back)
+    if fk == "fixed":
+        for wrong in (n + 1, n + 2, n + 7, 2 * n):
+            try:
+                props = make_props("fixed", dict(base_kw, fixed_len=wrong))
+                got = f.TransferFrame.unpack(raw_frame=ref + ref, frame_type=f.FrameType.FIXED, frame_properties=props)
+            except allowed as e:
+                rec.outcome(f"mismatch:fixed-length-too-large/long-buffer:{type(e).__name__}")
+                continue
+            except Exception as e:
+                rec.violation(f"C17.mismatch/TransferFrame.unpack/not-refused/fixed-length-too-large-with-long-buffer/{fk}", case,
+                              {"fixed_len": wrong, "frame": n, "buffer": 2 * n, "outcome": "foreign exception", "error": repr(e)}, "one of the Uslp* errors or ValueError", repro=repro)
+                continue
+            rec.violation(f"C17.mismatch/TransferFrame.unpack/not-refused/fixed-length-too-large-with-long-buffer/{fk}", case,
+                          {"fixed_len": wrong, "frame": n, "buffer": 2 * n, "outcome": "accepted", "decoded": UU.observe_frame(got)}, "one of the Uslp* errors or ValueError", repro=repro)
+
+
 PTR_KINDS = 4
 
 
